@@ -310,7 +310,7 @@ def execute(plan, ctx):
     rnd = random.Random(kernel.H("c14", plan["seed"]))
     corrs = [build_corr(s) for s in plan["corrs"]]
     obs_pool = [make_obs(rnd, m) for m in (1.3, -0.7, 2.0)]
-    w = make_obs(rnd, 1.0)
+    w = make_obs(rnd, 1.0, n=8)          # the weight lives on a strict superset of the correlators' configurations
     state = {
         "corrs": corrs,
         "obs": obs_pool,
@@ -318,7 +318,8 @@ def execute(plan, ctx):
         "nums": list(NUMS),
         "weight": [w],
         "matrices": [np.array([[1.0, 0.5], [-0.25, 2.0]]), np.array([[0.0, 1.0], [1.0, 0.0]]), np.array([[1.0, 0.0, 2.0], [0.5, 1.0, 0.0], [0.0, -1.0, 1.0]]), np.array([[2.0]])],
-        "vectors": [np.array([1.0, 2.0]), np.array([0.6, -0.8]), np.array([1.0, 0.0, -2.0]), np.array([0.0, 3.0, 4.0])],
+        "vectors": [np.array([1.0, 2.0]), np.array([0.6, -0.8]), np.array([1.0, 0.0, -2.0]), np.array([0.0, 3.0, 4.0]),
+                    np.array([1.0 + 1.0j, 2.0 - 0.5j]), np.array([0.5j, 1.0, -2.0 + 1.0j]), np.array([3, -4]), np.array([1, 2, 2])],
         "vlists": [],
         "pranges": [[0, 3], [1, None], [2, 2], [0, 0], [1, 5]],
         "default_padding": [pe.Corr.__init__.__defaults__[0]],
